@@ -373,6 +373,28 @@ func C19Scenarios(tier string) []*h.Scenario {
 		s.FaultOps = map[string]bool{sim.OpTerminate: true, sim.OpK8sDelete: true}
 		out = append(out, s)
 	}
+	// two removal batches in one scan (force-tainted, then expired) against a tight cloud minimum,
+	// with every terminate failing: the second batch must be judged on what the first really did
+	{
+		g := StdGroup("g1")
+		g.Opts.MinNodes = 0
+		g.ASG.Min = 2
+		s := &h.Scenario{Name: "c19.two-batches", Groups: []h.GroupSpec{g}, Slots: 4, Quantum: Q, MaxEventsPerSlot: 1,
+			FaultOps: map[string]bool{sim.OpTerminate: true}}
+		s.Init = func(hh *h.Hist) {
+			a := InitASGs(hh)[0]
+			n := hh.W.AddNode(a, sim.NodeOpt{Age: 20 * Q})
+			hh.W.AddPod(podOn(g, n.Name, 500))
+			hh.W.AddNode(a, sim.NodeOpt{Age: 21 * Q, ForceTaint: true})
+			hh.W.AddNode(a, sim.NodeOpt{Age: 22 * Q, ForceTaint: true})
+			hh.W.AddNode(a, sim.NodeOpt{Age: 23 * Q, TaintAge: dp(5 * Q)})
+			hh.W.AddNode(a, sim.NodeOpt{Age: 24 * Q, TaintAge: dp(6 * Q)})
+		}
+		s.Events = func(hh *h.Hist, slot int) []h.Event {
+			return []h.Event{evASGEdit(g.ASG.Name, 1, 8), evASGEdit(g.ASG.Name, 3, 8), evRestart()}
+		}
+		out = append(out, s)
+	}
 	// a tight cloud minimum: batches that would breach it must be refused up front
 	{
 		g := StdGroup("g1")
@@ -400,7 +422,7 @@ func init() {
 		ID:    "C19",
 		Level: "model_checking",
 		Rule: "provider grid: ASG min 0..3 x desired 0..5 x every sequence of 1..3 nodes drawn from {three members, a node of another ASG, a node with an unknown instance, a malformed provider id} x the k-th terminate call failing for every k, on the real NodeGroup.DeleteNodes; RunForever returns the not-in-group error; " +
-			"histories (deviation-bounded DFS): the C01 worlds with every terminate / Kubernetes delete call failing, two-group worlds holding a non-member node eligible for removal, and a tight cloud minimum; non-trivial = every grid case and every scan that removed a node; distinct by parameters / (slot, class, node)",
+			"histories (deviation-bounded DFS): the C01 worlds with every terminate / Kubernetes delete call failing, two-group worlds holding a non-member node eligible for removal, two removal batches in one scan against a tight cloud minimum, and a tight cloud minimum edited at run time; non-trivial = every grid case and every scan that removed a node; distinct by parameters / (slot, class, node)",
 		Grid:      c19Grid,
 		Scenarios: C19Scenarios,
 		Monitors:  func() []h.Monitor { return []h.Monitor{RemovalProtocol{}, &NearMiss{Seen: map[string]struct{}{}}} },
